@@ -199,6 +199,41 @@ theorem trailing_blank_line_indent0_counterexample :
     readString (reprString ['a', NL] 0 true ++ [',', ' ', '1', ')']) = some ['a'] ∧ Guard ['a', NL] 0 true = false ∧
     Roundtrips ['a', NL] 1 true [',', ' ', '1', ')'] ∧ Guard ['a', NL] 1 true = true := by decide +kernel
 
+/-! ### printing contexts: which indent, hence which guard, a context prescribes -/
+
+/-- the guard depends on the indent only through `indent = 0` -/
+theorem guard_indent_pos (s : Str) (i j : Nat) (single : Bool) (hi : i ≠ 0) (hj : j ≠ 0) :
+    Guard s i single = Guard s j single := by
+  simp [Guard, GuardM, hi, hj]
+
+/-- every printing context other than the switch header prints at an indent ≥ 1, at every nesting depth -/
+theorem ctxIndent_pos (c : PrintCtx) (d : Nat) (h : c ≠ .switchHeader) : ctxIndent c d ≠ 0 := by
+  cases c <;> simp [ctxIndent] at *
+
+/-- A constant string inside the guard for indent 1 (no clause about its last line) survives in every printing context
+other than the switch header (operation argument, `menu(…)` case header, message-switch text, SsbScript argument), at
+every nesting depth. -/
+theorem const_string_roundtrip_ctx (c : PrintCtx) (d : Nat) (s rest : Str) (hc : c ≠ .switchHeader)
+    (hg : Guard s 1 true = true) (hr : rest.head? ≠ some SQ) :
+    readString (constStr s (ctxIndent c d) ++ rest) = some s :=
+  const_string_roundtrip s _ rest
+    (by rw [guard_indent_pos s _ 1 true (ctxIndent_pos c d hc) (by decide)]; exact hg) hr
+
+/-- The values of a language string are printed one level deeper than the parameter: inside the guard for indent 1
+they survive in EVERY printing context, the switch header included. -/
+theorem langstring_value_roundtrip_ctx (c : PrintCtx) (d : Nat) (v rest : Str)
+    (hg : Guard v 1 false = true) (hr : rest.head? ≠ some DQ) :
+    readString (reprString v (ctxIndent c d + 1) false ++ rest) = some v :=
+  read_repr_string v _ false rest
+    (by rw [guard_indent_pos v _ 1 false (by omega) (by decide)]; exact hg) (by simpa [quoteOf] using hr)
+
+/-- the switch header is the one context at indent 0: there (and only there) a value with a blank last line is lost -/
+theorem switch_header_counterexample :
+    ctxIndent .switchHeader 3 = 0 ∧ ¬ Roundtrips ['x', NL, ' '] (ctxIndent .switchHeader 3) true [',', ' ', '1', ')'] ∧
+    Roundtrips ['x', NL, ' '] (ctxIndent .menuHeader 3) true [')', ':'] ∧
+    Roundtrips ['x', NL, ' '] (ctxIndent .msgText 0) true [NL] ∧ Roundtrips ['x', NL, ' '] (ctxIndent .opArg 4) true [')', ';'] ∧
+    Roundtrips ['x', NL, ' '] (ctxIndent .ssbsArg 2) true [',', ' '] := by decide +kernel
+
 /-- the guards are met by ordinary text: quotes of both kinds, blanks at either end of a line, empty lines, one
 triple-quote sequence, non-ASCII (non-vacuity of the hypotheses) -/
 example : Guard "it's \"fine\" ".toList 3 true = true := by decide +kernel
